@@ -11,6 +11,14 @@
  *   bits:<hexname>=<position>,...                          bits (ascending positions)
  *   str[:lo..hi,...]                                       string with length parts
  *   t:<module>:<typedef>                                   derived type of an IETF module (laws only, no model)
+ *   U(<ty>|<ty>|...)                                       union of the member types (a member may itself be U(...))
+ *   pstr:[lo..hi,...]:<lvl>[/<lvl>...]                     string with patterns; a level is `;`-separated [!]<hex-pattern> (`!` =
+ *                                                          invert-match); several levels = a typedef chain, one level per typedef,
+ *                                                          the length parts sit on the last level
+ *   idref:<leafmod>:<base>[+<base>...]@<ident>,<ident>,... identityref; <base> = <mod>.<name>; <ident> = <mod>.<name>[<<base>[+<base>...]]
+ *                                                          is one identity of the module set with the identities it is derived from;
+ *                                                          the leaf lives in module <leafmod> (which may own identities of the set)
+ *   instid:<schema-ser>:<yang-hex>[,...]                   instance-identifier (require-instance false) over the modules given; see instid_load
  *
  * ops
  *   store <ty> <hints> <hex>          plugin->store(JSON format, hints)      -> ok <canon-hex> <lyb-hex> | err <Kind>
@@ -20,17 +28,21 @@
  *   cmp <ty> <hex1> <hex2>            lyd_new_term x2                        -> ok <eq> <sort> <canon-eq> <ord12> <ord21> | err Reject1|Reject2
  *   lybrt <ty> <hex>                  value -> LYB -> value, dup, tree LYB   -> ok <lyb-hex> <canon-hex> <eq> <dup> <tree> | err <Kind>
  *   unlyb <ty> <hex>                  plugin->store(LYB format)              -> ok <canon-hex> | err <Kind>
+ *   idfmt <ty> <json|xml|schema|lyb> <hex>  identityref value in a given prefix format: JSON = module names (store callback),
+ *                                     XML = prefixes x<mod> declared on the root element (parsed document), schema = import prefixes
+ *                                     p<mod> (default statement of a fresh module), lyb = store callback with LYB format
+ *                                                                            -> ok <canon-hex> <json-hex> <xml-hex> | err <Kind>
  *   routes <ty> <mask> <hex>          same lexical value through 7 routes    -> ok <xml> <json-string> <json-literal> <new_term> <value_validate> <default> <predicate>
  *                                     each field: canonical hex | R (rejected) | N (route not run)
  */
 #define _GNU_SOURCE
 #include <ctype.h>
 #include <inttypes.h>
+#include <time.h>
 #include "libyang.h"
 #include "plugins_types.h"
 #include "proto.h"
 
-static struct ly_ctx *ctx;
 static const char *repo;
 
 struct tyent {
@@ -39,7 +51,9 @@ struct tyent {
     const struct lysc_node *c, *l, *s;
     const struct lysc_type *type;
     char *yangtype;                      /* rendered `type ...;` statement (for the default-statement route) */
+    char *preamble;                      /* imports + typedefs the type statement needs */
     int needs_imports;
+    char *idmods;                        /* identityref: space-separated module names of the identity set (incl. the leaf module) */
 };
 static struct tyent *tys;
 static size_t ntys;
@@ -51,6 +65,33 @@ kind_of_msg(const char *m)
     if (!m) return "Other";
 #define HAS(p) (strstr(m, p) != NULL)
 #define PFX(p) (!strncmp(m, p, strlen(p)))
+    if (PFX("Invalid union value") || PFX("Invalid LYB union value - no matching")) return "NoMember";
+    if (PFX("Invalid LYB union")) return "LybSize";
+    if (PFX("Unsatisfied pattern")) return "Pattern";
+    if (PFX("Invalid Base64 character")) return "B64Char";
+    if (PFX("Base64 encoded value length must be divisible by 4")) return "B64Len";
+    if (PFX("Newlines are expected every 64 Base64 characters")) return "B64Newline";
+    if (PFX("Invalid date-and-time month")) return "DtMonth";
+    if (PFX("Invalid date-and-time day of month")) return "DtDay";
+    if (PFX("Invalid date-and-time hours")) return "DtHour";
+    if (PFX("Invalid date-and-time minutes")) return "DtMinute";
+    if (PFX("Invalid date-and-time seconds")) return "DtSecond";
+    if (PFX("Missing date-and-time fractions")) return "DtFraction";
+    if (PFX("Invalid date-and-time timezone hour")) return "DtZoneHour";
+    if (PFX("Invalid date-and-time timezone minutes")) return "DtZoneMinute";
+    if (PFX("Invalid argument strlen(value) > 18")) return "DtShort";
+    if (PFX("Invalid LYB date-and-time character")) return "DtLybChar";
+    if (PFX("UTF-8 error")) return "PcreUtf8";
+    if (PFX("Invalid empty identityref")) return "Empty";
+    if (PFX("Invalid identityref")) {
+        if (HAS("unable to map prefix")) return "NoPrefix";
+        if (HAS("identity not found in module")) return "NotFound";
+        if (HAS("identity not derived from")) return "NotDerived";
+        if (HAS("identity is disabled by if-feature")) return "Disabled";
+        return "Other";
+    }
+    if (PFX("Invalid instance-identifier")) return HAS("\" value - syntax error") ? "Syntax" : (HAS("\" value - semantic error") ? "Semantic" : "Other");
+    if (PFX("Internal error")) return "Internal";
     if (PFX("Invalid non-")) return "Hint";
     if (HAS("empty value.") || PFX("Invalid empty decimal64")) return "Empty";
     if (HAS("min/max bounds")) return "Bounds";
@@ -72,11 +113,11 @@ kind_of_msg(const char *m)
 static void
 sb_add(char **buf, size_t *len, const char *fmt, ...)
 {
-    va_list ap; char tmp[2048]; int n;
+    va_list ap; int n;
 
-    va_start(ap, fmt); n = vsnprintf(tmp, sizeof tmp, fmt, ap); va_end(ap);
+    va_start(ap, fmt); n = vsnprintf(NULL, 0, fmt, ap); va_end(ap);
     *buf = realloc(*buf, *len + n + 1);
-    memcpy(*buf + *len, tmp, n + 1);
+    va_start(ap, fmt); vsnprintf(*buf + *len, n + 1, fmt, ap); va_end(ap);
     *len += n;
 }
 
@@ -138,8 +179,181 @@ yang_dq(const char *s, size_t n, char **buf, size_t *len)
     return 1;
 }
 
+/* rendering context: module-level statements the type needs */
+struct rctx {
+    char *imports; size_t il;            /* import statements */
+    char *body; size_t bl;               /* typedefs / identities */
+    int ntd;                             /* typedef counter */
+    int ietf;                            /* needs the ietf imports */
+    char *idmods; size_t ml;             /* identityref: module names */
+    char leafmod[64];                    /* identityref: name the leaf module must have */
+};
+
+static char *render_type(const char *d, struct rctx *rc);
+
+/* split `s[0..n)` at top-level (parenthesis depth 0) occurrences of `sep`; calls render_type on every piece */
+static int
+render_members(const char *s, size_t n, struct rctx *rc, char **buf, size_t *len)
+{
+    size_t i, start = 0; int depth = 0, cnt = 0;
+
+    for (i = 0; i <= n; i++) {
+        if (i < n && s[i] == '(') depth++;
+        else if (i < n && s[i] == ')') depth--;
+        if (i == n || (s[i] == '|' && !depth)) {
+            char *piece = strndup(s + start, i - start), *r;
+            r = render_type(piece, rc);
+            free(piece);
+            if (!r) return -1;
+            sb_add(buf, len, " %s", r);
+            free(r);
+            start = i + 1; cnt++;
+        }
+    }
+    return depth ? -1 : cnt;
+}
+
+/* `;`-separated [!]hex patterns -> pattern statements */
+static int
+render_patterns(const char *s, size_t n, char **buf, size_t *len)
+{
+    size_t i, start = 0;
+
+    for (i = 0; i <= n; i++) {
+        if (i == n || s[i] == ';') {
+            if (i > start) {
+                int inv = s[start] == '!'; size_t pl; char *hex = strndup(s + start + inv, i - start - inv), *pat;
+                pat = vp_unhex(hex, &pl);
+                free(hex);
+                if (!pat) return -1;
+                sb_add(buf, len, " pattern \"");
+                if (!yang_dq(pat, pl, buf, len)) { free(pat); return -1; }
+                sb_add(buf, len, inv ? "\" { modifier invert-match; }" : "\";");
+                free(pat);
+            }
+            start = i + 1;
+        }
+    }
+    return 0;
+}
+
+static int
+word_in(const char *list, const char *w)
+{
+    size_t wl = strlen(w); const char *p = list;
+    while (p && (p = strstr(p, w))) {
+        if ((p == list || p[-1] == ' ') && (p[wl] == ' ' || !p[wl])) return 1;
+        p += wl;
+    }
+    return 0;
+}
+
+/* `<mod>.<name>` -> qualified name as seen from module `from` (import prefix p<mod>) */
+static void
+idname(const char *ref, size_t n, const char *from, char **buf, size_t *len)
+{
+    const char *dot = memchr(ref, '.', n);
+    size_t ml = dot ? (size_t)(dot - ref) : 0;
+
+    if (dot && strlen(from) == ml && !strncmp(from, ref, ml)) sb_add(buf, len, "%.*s", (int)(n - ml - 1), dot + 1);
+    else sb_add(buf, len, "p%.*s:%.*s", (int)ml, ref, (int)(n - ml - 1), dot ? dot + 1 : "");
+}
+
+static struct ly_ctx *ctx;
+
+/* the identity set `graph` (<mod>.<name>[<<base>+<base>],...): create every module other than `leafmod` that is not in the context yet (in
+ * dependency order); identities of `leafmod` and its imports are appended to rc.  Returns 0 on success. */
+static int
+render_identities(const char *graph, const char *leafmod, struct rctx *rc)
+{
+    char mods[64][64]; int nm = 0, i, progress = 1, done[64] = {0};
+    const char *p;
+
+    /* module names, in order of first appearance */
+    for (p = graph; *p; ) {
+        const char *e = strchr(p, ','); size_t n = e ? (size_t)(e - p) : strlen(p); const char *q = p;
+        while (q < p + n) {
+            const char *dot = memchr(q, '.', p + n - q); char nm_[64]; size_t l;
+            if (!dot || dot - q >= 60) return -1;
+            l = dot - q; memcpy(nm_, q, l); nm_[l] = 0;
+            for (i = 0; i < nm && strcmp(mods[i], nm_); i++) {}
+            if (i == nm) { if (nm == 64) return -1; strcpy(mods[nm++], nm_); }
+            q = dot + 1;
+            while (q < p + n && *q != '<' && *q != '+') q++;
+            if (q < p + n) q++;
+        }
+        p = e ? e + 1 : p + n;
+    }
+    for (i = 0; i < nm && strcmp(mods[i], leafmod); i++) {}
+    if (i == nm) { if (nm == 64) return -1; strcpy(mods[nm++], leafmod); }
+    for (i = 0; i < nm; i++) sb_add(&rc->idmods, &rc->ml, "%s%s", i ? " " : "", mods[i]);
+
+    while (progress) {
+        progress = 0;
+        for (i = 0; i < nm; i++) {
+            char *imp = NULL, *body = NULL, deps[2048] = ""; size_t il = 0, bl = 0; int ready = 1, isleaf = !strcmp(mods[i], leafmod), j;
+            if (done[i]) continue;
+            if (!isleaf && ly_ctx_get_module_implemented(ctx, mods[i])) { done[i] = 1; progress = 1; continue; }
+            for (p = graph; *p; ) {
+                const char *e = strchr(p, ','); size_t n = e ? (size_t)(e - p) : strlen(p);
+                const char *dot = memchr(p, '.', n), *lt = memchr(p, '<', n);
+                if ((size_t)(dot - p) == strlen(mods[i]) && !strncmp(p, mods[i], dot - p)) {
+                    const char *ne = lt ? lt : p + n;
+                    if (ne[-1] == '!') {
+                        /* disabled by if-feature (the feature `off` of the module is never enabled) */
+                        if (!body || !strstr(body, " feature off;")) sb_add(&body, &bl, " feature off;");
+                        sb_add(&body, &bl, " identity %.*s { if-feature off;", (int)(ne - dot - 2), dot + 1);
+                    } else {
+                        sb_add(&body, &bl, " identity %.*s {", (int)(ne - dot - 1), dot + 1);
+                    }
+                    if (lt) {
+                        const char *q = lt + 1;
+                        while (q < p + n) {
+                            const char *pe = memchr(q, '+', p + n - q); size_t rl = pe ? (size_t)(pe - q) : (size_t)(p + n - q);
+                            const char *d2 = memchr(q, '.', rl); char dm[64];
+                            if (!d2) { free(imp); free(body); return -1; }
+                            memcpy(dm, q, d2 - q); dm[d2 - q] = 0;
+                            if (strcmp(dm, mods[i]) && !word_in(deps, dm)) { strcat(deps, " "); strcat(deps, dm); }
+                            sb_add(&body, &bl, " base "); idname(q, rl, mods[i], &body, &bl); sb_add(&body, &bl, ";");
+                            q = pe ? pe + 1 : p + n;
+                        }
+                    }
+                    sb_add(&body, &bl, " }");
+                }
+                p = e ? e + 1 : p + n;
+            }
+            if (isleaf) {
+                /* the leaf module imports every module of the set (its type names the bases) */
+                for (j = 0; j < nm; j++) if (j != i && !word_in(deps, mods[j])) { strcat(deps, " "); strcat(deps, mods[j]); }
+            }
+            for (j = 0; j < nm; j++) {
+                if (j != i && word_in(deps, mods[j])) {
+                    if (!done[j]) ready = 0;
+                    sb_add(&imp, &il, " import %s { prefix p%s; }", mods[j], mods[j]);
+                }
+            }
+            if (ready) {
+                if (isleaf) {
+                    sb_add(&rc->imports, &rc->il, "%s", imp ? imp : "");
+                    sb_add(&rc->body, &rc->bl, "%s", body ? body : "");
+                } else {
+                    char *sch = NULL; size_t sl = 0; struct lys_module *m = NULL;
+                    sb_add(&sch, &sl, "module %s { yang-version 1.1; namespace \"urn:%s\"; prefix %s;%s%s }", mods[i], mods[i], mods[i],
+                            imp ? imp : "", body ? body : "");
+                    if (lys_parse_mem(ctx, sch, LYS_IN_YANG, &m)) { free(sch); free(imp); free(body); return -1; }
+                    free(sch);
+                }
+                done[i] = 1; progress = 1;
+            }
+            free(imp); free(body);
+        }
+    }
+    for (i = 0; i < nm; i++) if (!done[i]) return -1;
+    return 0;
+}
+
 static char *
-render_type(const char *d, int *needs_imports)
+render_type(const char *d, struct rctx *rc)
 {
     char *buf = NULL; size_t len = 0;
     static const char *ints[][2] = {{"i8", "int8"}, {"i16", "int16"}, {"i32", "int32"}, {"i64", "int64"}, {"u8", "uint8"},
@@ -148,7 +362,52 @@ render_type(const char *d, int *needs_imports)
     size_t hl = colon ? (size_t)(colon - d) : strlen(d);
     int i;
 
-    *needs_imports = 0;
+    if (d[0] == 'U' && d[1] == '(' && d[strlen(d) - 1] == ')') {
+        sb_add(&buf, &len, "type union {");
+        if (render_members(d + 2, strlen(d) - 3, rc, &buf, &len) < 1) { free(buf); return NULL; }
+        sb_add(&buf, &len, " }");
+        return buf;
+    }
+    if (hl == 4 && !strncmp(d, "pstr", 4) && colon) {
+        const char *c2 = strchr(colon + 1, ':'), *lv; char prev[64] = "string";
+        if (!c2) return NULL;
+        for (lv = c2 + 1; ; ) {
+            const char *e = strchr(lv, '/'); size_t n = e ? (size_t)(e - lv) : strlen(lv);
+            if (e) {
+                sb_add(&rc->body, &rc->bl, " typedef pt%d { type %s {", rc->ntd, prev);
+                if (render_patterns(lv, n, &rc->body, &rc->bl)) return NULL;
+                sb_add(&rc->body, &rc->bl, " } }");
+                snprintf(prev, sizeof prev, "pt%d", rc->ntd++);
+                lv = e + 1;
+            } else {
+                sb_add(&buf, &len, "type %s {", prev);
+                if (c2 > colon + 1) {
+                    char *parts = strndup(colon + 1, c2 - colon - 1);
+                    int r = render_parts(parts, 0, &buf, &len, "length");
+                    free(parts);
+                    if (r) { free(buf); return NULL; }
+                }
+                if (render_patterns(lv, n, &buf, &len)) { free(buf); return NULL; }
+                sb_add(&buf, &len, " }");
+                break;
+            }
+        }
+        return buf;
+    }
+    if (hl == 5 && !strncmp(d, "idref", 5) && colon) {
+        const char *c2 = strchr(colon + 1, ':'), *at = c2 ? strchr(c2, '@') : NULL, *q;
+        if (!c2 || !at || c2 - colon - 1 >= 60 || rc->leafmod[0]) return NULL;
+        memcpy(rc->leafmod, colon + 1, c2 - colon - 1); rc->leafmod[c2 - colon - 1] = 0;
+        if (render_identities(at + 1, rc->leafmod, rc)) return NULL;
+        sb_add(&buf, &len, "type identityref {");
+        for (q = c2 + 1; q < at; ) {
+            const char *pe = memchr(q, '+', at - q); size_t rl = pe ? (size_t)(pe - q) : (size_t)(at - q);
+            sb_add(&buf, &len, " base "); idname(q, rl, rc->leafmod, &buf, &len); sb_add(&buf, &len, ";");
+            q = pe ? pe + 1 : at;
+        }
+        sb_add(&buf, &len, " }");
+        return buf;
+    }
     for (i = 0; ints[i][0]; i++) {
         if (strlen(ints[i][0]) == hl && !strncmp(d, ints[i][0], hl)) {
             sb_add(&buf, &len, "type %s", ints[i][1]);
@@ -169,6 +428,15 @@ render_type(const char *d, int *needs_imports)
     }
     if (hl == 4 && !strncmp(d, "bool", 4)) {
         sb_add(&buf, &len, "type boolean;");
+        return buf;
+    }
+    if (hl == 3 && !strncmp(d, "bin", 3)) {
+        sb_add(&buf, &len, "type binary");
+        if (colon) {
+            sb_add(&buf, &len, " {");
+            if (render_parts(colon + 1, 0, &buf, &len, "length")) { free(buf); return NULL; }
+            sb_add(&buf, &len, " }");
+        } else sb_add(&buf, &len, ";");
         return buf;
     }
     if (hl == 3 && !strncmp(d, "str", 3)) {
@@ -205,7 +473,7 @@ render_type(const char *d, int *needs_imports)
     if (hl == 1 && d[0] == 't' && colon) {
         const char *c2 = strchr(colon + 1, ':');
         if (!c2) return NULL;
-        *needs_imports = 1;
+        rc->ietf = 1;
         if (!strncmp(colon + 1, "ietf-inet-types", c2 - colon - 1)) sb_add(&buf, &len, "type inet:%s;", c2 + 1);
         else if (!strncmp(colon + 1, "ietf-yang-types", c2 - colon - 1)) sb_add(&buf, &len, "type yang:%s;", c2 + 1);
         else return NULL;
@@ -216,10 +484,94 @@ render_type(const char *d, int *needs_imports)
 
 static const char *IMPORTS = " import ietf-inet-types { prefix inet; } import ietf-yang-types { prefix yang; }";
 
+/* a later lys_parse_mem may recompile modules that are already in the context (dependency sets): compiled nodes are then freed and
+ * created anew, so the cached pointers are looked up again after every module that is added */
+static void
+refresh_types(void)
+{
+    size_t i;
+
+    for (i = 0; i < ntys; i++) {
+        struct tyent *t = &tys[i];
+        if (!t->mod) continue;
+        t->c = lys_find_child(NULL, t->mod, "c", 0, 0, 0);
+        t->l = lys_find_child(t->c, t->mod, "l", 0, 0, 0);
+        t->s = lys_find_child(t->c, t->mod, "s", 0, 0, 0);
+        t->type = ((struct lysc_node_leaflist *)t->l)->type;
+    }
+}
+
+/* ---- instance-identifier: descriptor `instid:<schema-ser>:<yang-hex>[,<yang-hex>...]`.  The modules are loaded as given (the first one has
+ * `container c { leaf-list l; leaf s }` of type instance-identifier besides the data nodes the values point to); <schema-ser> is the serialisation
+ * of lean/LyModel/Path/Drv.lean (the one harness/api_path.c computes) and must equal what is computed here from the lysc_node trees of the loaded
+ * modules, in the order given - the model works on <schema-ser> alone. */
+static char
+ii_kind(const struct lysc_node *sn)
+{
+    switch (sn->nodetype) {
+    case LYS_LIST: return (sn->flags & LYS_KEYLESS) ? 'k' : ((sn->flags & LYS_CONFIG_W) ? 'L' : 'l');
+    case LYS_LEAFLIST: return (sn->flags & LYS_CONFIG_W) ? 'F' : 'f';
+    case LYS_LEAF: return (sn->flags & LYS_KEY) ? 'K' : 'e';
+    case LYS_ANYDATA: case LYS_ANYXML: return 'e';
+    default: return 'i';
+    }
+}
+
+static void
+ii_hex(char **buf, size_t *len, const char *t)
+{
+    if (!*t) sb_add(buf, len, "-");
+    for (; *t; t++) sb_add(buf, len, "%02x", (unsigned char)*t);
+}
+
+static void
+ii_ser(char **buf, size_t *len, const struct lysc_node *parent, const struct lysc_module *mod)
+{
+    const struct lysc_node *it = NULL;
+
+    while ((it = lys_getnext(it, parent, mod, 0))) {
+        sb_add(buf, len, "("); ii_hex(buf, len, it->module->name); sb_add(buf, len, ","); ii_hex(buf, len, it->name);
+        sb_add(buf, len, ",%c,", ii_kind(it));
+        if (!(it->nodetype & (LYS_LEAF | LYS_LEAFLIST | LYS_ANYDATA | LYS_ANYXML))) ii_ser(buf, len, it, NULL);
+        sb_add(buf, len, ")");
+    }
+}
+
+static struct lys_module *
+instid_load(const char *desc)
+{
+    const char *ser = desc + 7, *c2 = strchr(ser, ':'), *p;
+    struct lys_module *first = NULL, *loaded[8]; int n = 0, i;
+    char *buf = NULL; size_t len = 0; const struct lysc_node *c;
+
+    if (!c2) return NULL;
+    for (p = c2 + 1; *p && n < 8; ) {
+        const char *e = strchr(p, ','); size_t hl = e ? (size_t)(e - p) : strlen(p);
+        char *hex = strndup(p, hl), *y = vp_unhex(hex, NULL); struct lys_module *m = NULL;
+        free(hex);
+        if (!y || lys_parse_mem(ctx, y, LYS_IN_YANG, &m)) { free(y); return NULL; }
+        free(y);
+        loaded[n++] = m;
+        p = e ? e + 1 : p + hl;
+    }
+    if (!n) return NULL;
+    first = loaded[0];
+    for (i = 0; i < n; i++) ii_ser(&buf, &len, NULL, loaded[i]->compiled);
+    if (!buf || strlen(buf) != (size_t)(c2 - ser) || strncmp(buf, ser, c2 - ser)) {
+        fprintf(stderr, "instid: schema serialisation differs: %s\n", buf ? buf : "-");
+        free(buf);
+        return NULL;
+    }
+    free(buf);
+    c = lys_find_child(NULL, first, "c", 0, 0, 0);
+    if (!c || !lys_find_child(c, first, "l", 0, LYS_LEAFLIST, 0) || !lys_find_child(c, first, "s", 0, LYS_LEAF, 0)) return NULL;
+    return first;
+}
+
 static struct tyent *
 get_type(const char *desc)
 {
-    size_t i; char *yt, *sch = NULL; size_t sl = 0; int imp; struct lys_module *mod = NULL; struct tyent *t;
+    size_t i; char *yt, *sch = NULL; size_t sl = 0; struct lys_module *mod = NULL; struct tyent *t; struct rctx rc;
 
     for (i = 0; i < ntys; i++) {
         if (!strcmp(tys[i].desc, desc)) return tys[i].mod ? &tys[i] : NULL;
@@ -227,11 +579,20 @@ get_type(const char *desc)
     tys = realloc(tys, (ntys + 1) * sizeof *tys);
     t = &tys[ntys];
     memset(t, 0, sizeof *t);
+    memset(&rc, 0, sizeof rc);
     t->desc = strdup(desc);
-    yt = render_type(desc, &imp);
+    if (!strncmp(desc, "instid:", 7)) {       /* instance-identifier over a schema of its own: modules given in the descriptor */
+        if ((t->mod = instid_load(desc))) { t->yangtype = strdup("type instance-identifier { require-instance false; }"); t->preamble = strdup(""); }
+        yt = NULL;
+    } else
+    yt = render_type(desc, &rc);
     if (yt) {
-        sb_add(&sch, &sl, "module vtm%zu { yang-version 1.1; namespace \"urn:vtm%zu\"; prefix v;%s"
-                " container c { leaf-list l { %s } leaf s { %s } } }", ntys, ntys, imp ? IMPORTS : "", yt, yt);
+        char name[80], *pre = NULL; size_t pl = 0;
+        if (rc.leafmod[0]) snprintf(name, sizeof name, "%s", rc.leafmod);
+        else snprintf(name, sizeof name, "vtm%zu", ntys);
+        sb_add(&pre, &pl, "%s%s%s", rc.ietf ? IMPORTS : "", rc.imports ? rc.imports : "", rc.body ? rc.body : "");
+        sb_add(&sch, &sl, "module %s { yang-version 1.1; namespace \"urn:%s\"; prefix v;%s"
+                " container c { leaf-list l { %s } leaf s { %s } } }", name, name, pre, yt, yt);
         if (lys_parse_mem(ctx, sch, LYS_IN_YANG, &mod) == LY_SUCCESS) {
             t->mod = mod;
             t->c = lys_find_child(NULL, mod, "c", 0, 0, 0);
@@ -239,14 +600,18 @@ get_type(const char *desc)
             t->s = lys_find_child(t->c, mod, "s", 0, 0, 0);
             t->type = ((struct lysc_node_leaflist *)t->l)->type;
             t->yangtype = yt;
-            t->needs_imports = imp;
-            yt = NULL;
+            t->preamble = pre;
+            t->needs_imports = rc.ietf;
+            t->idmods = rc.idmods; rc.idmods = NULL;
+            yt = NULL; pre = NULL;
         }
-        free(sch);
+        free(sch); free(pre);
     }
-    free(yt);
+    free(yt); free(rc.imports); free(rc.body); free(rc.idmods);
     ntys++;
+    refresh_types();
     ly_err_clean(ctx, NULL);
+    t = &tys[ntys - 1];
     return t->mod ? t : NULL;
 }
 
@@ -268,7 +633,7 @@ store_text(struct tyent *t, const char *s, size_t n, uint32_t hints, struct lyd_
     rc = t->type->plugin->store(ctx, t->type, n ? s : "", n, 0, LY_VALUE_JSON, NULL, hints, t->l, val, NULL, &err);
     if (rc == LY_EINCOMPLETE) rc = LY_SUCCESS;
     if (rc) {
-        *kind = kind_of_msg(err ? err->msg : NULL);
+        *kind = (!err && rc == LY_EINT) ? "Internal" : kind_of_msg(err ? err->msg : NULL);
         ly_err_free(err);
     }
     return rc;
@@ -335,6 +700,7 @@ main(void)
     repo = getenv("VERIF_REPO");
     if (!repo) repo = "/repo";
     snprintf(sd, sizeof sd, "%s/models", repo);
+    setenv("TZ", "UTC", 1); tzset();     /* the canonical form of date-and-time is local time (ly_time_time2str) */
     ly_log_options(LY_LOSTORE_LAST);
     if (ly_ctx_new(sd, 0, &ctx)) return 2;
 
@@ -474,12 +840,93 @@ main(void)
             rc = t->type->plugin->store(ctx, t->type, s, n, 0, LY_VALUE_LYB, NULL, LYD_HINT_DATA, t->l, &back, NULL, &err);
             if (rc == LY_EINCOMPLETE) rc = LY_SUCCESS;
             if (rc) {
-                vp_reply(id, "err %s", kind_of_msg(err ? err->msg : NULL));
+                vp_reply(id, "err %s", (!err && rc == LY_EINT) ? "Internal" : kind_of_msg(err ? err->msg : NULL));
                 ly_err_free(err);
             } else {
                 const char *cb = canon_of(&back);
                 vp_begin(id, "ok"); vp_field_hex(cb, strlen(cb)); vp_end();
                 back.realtype->plugin->free(ctx, &back);
+            }
+            free(s);
+        } else if (!strcmp(op, "idfmt") && r.ntok == 6) {
+            size_t n; char *s = vp_unhex(r.tok[5], &n); const char *fmt = r.tok[4];
+            if (!s) { vp_reply(id, "err BadHex"); continue; }
+            if (!strcmp(fmt, "json") || !strcmp(fmt, "lyb")) {
+                struct lyd_value val; struct ly_err_item *err = NULL; LY_ERR rc;
+                memset(&val, 0, sizeof val);
+                rc = t->type->plugin->store(ctx, t->type, n ? s : "", n, 0, fmt[0] == 'j' ? LY_VALUE_JSON : LY_VALUE_LYB, NULL, LYD_HINT_DATA,
+                        t->l, &val, NULL, &err);
+                if (rc == LY_EINCOMPLETE) rc = LY_SUCCESS;
+                if (rc) {
+                    vp_reply(id, "err %s", kind_of_msg(err ? err->msg : NULL));
+                    ly_err_free(err);
+                } else {
+                    const char *c = canon_of(&val);
+                    vp_begin(id, "ok"); vp_field_hex(c, strlen(c)); vp_end();
+                    val.realtype->plugin->free(ctx, &val);
+                }
+            } else if (!strcmp(fmt, "xml") && t->idmods) {
+                char *doc = NULL; size_t dl = 0; struct lyd_node *tree = NULL, *x = NULL; char path[160]; LY_ERR rc;
+                char *ms = strdup(t->idmods), *sv = NULL, *m;
+                sb_add(&doc, &dl, "<c xmlns=\"urn:%s\"", t->mod->name);
+                for (m = strtok_r(ms, " ", &sv); m; m = strtok_r(NULL, " ", &sv)) sb_add(&doc, &dl, " xmlns:x%s=\"urn:%s\"", m, m);
+                sb_add(&doc, &dl, "><s>"); xml_esc(s, n, &doc, &dl); sb_add(&doc, &dl, "</s></c>");
+                free(ms);
+                rc = lyd_parse_data_mem(ctx, doc, LYD_XML, LYD_PARSE_ONLY | LYD_PARSE_STRICT, 0, &tree);
+                snprintf(path, sizeof path, "/%s:c/s", t->mod->name);
+                if (!rc) rc = lyd_find_path(tree, path, 0, &x);
+                if (rc) {
+                    const struct ly_err_item *e = ly_err_last(ctx);
+                    vp_reply(id, "err %s", kind_of_msg(e ? e->msg : NULL));
+                } else {
+                    char *out = NULL; const char *c = lyd_get_value(x);
+                    vp_begin(id, "ok"); vp_field_hex(c, strlen(c)); vp_end();
+                    free(out);
+                }
+                lyd_free_all(tree); free(doc);
+            } else if (!strcmp(fmt, "schema") && t->idmods) {
+                static unsigned dcount; char *sch = NULL; size_t sl = 0; struct lys_module *m2 = NULL;
+                char *ms = strdup(t->idmods), *sv = NULL, *m; const char *ty = t->yangtype;     /* identityref, or a union with an identityref member */
+                sb_add(&sch, &sl, "module vtd%u { yang-version 1.1; namespace \"urn:vtd%u\"; prefix v;", dcount, dcount);
+                dcount++;
+                for (m = strtok_r(ms, " ", &sv); m; m = strtok_r(NULL, " ", &sv)) sb_add(&sch, &sl, " import %s { prefix p%s; }", m, m);
+                free(ms);
+                /* the bases as seen from the new module: an unprefixed base of the leaf module gets that module's import prefix */
+                sb_add(&sch, &sl, " leaf x { ");
+                {
+                    const char *q = ty;
+                    while (*q) {
+                        if (!strncmp(q, " base ", 6) && !memchr(q + 6, ':', strcspn(q + 6, ";"))) {
+                            sb_add(&sch, &sl, " base p%s:", t->mod->name); q += 6;
+                        } else { sb_add(&sch, &sl, "%c", *q); q++; }
+                    }
+                }
+                sb_add(&sch, &sl, " default \"");
+                if (!yang_dq(s, n, &sch, &sl)) {
+                    vp_reply(id, "err NotYangText");
+                } else {
+                    sb_add(&sch, &sl, "\"; } }");
+                    LY_ERR prc = lys_parse_mem(ctx, sch, LYS_IN_YANG, &m2);
+                    refresh_types();
+                    t = get_type(r.tok[3]);
+                    if (prc) {
+                        const struct ly_err_item *e = ly_err_last(ctx); const char *msg = e ? e->msg : NULL, *in;
+                        /* the value error is embedded in the "Invalid default" message */
+                        if (msg && ((in = strstr(msg, "Invalid union value")) || (in = strstr(msg, "Invalid identityref")) ||
+                                (in = strstr(msg, "Invalid empty identityref")) ||
+                                (in = strstr(msg, "Invalid non-")))) msg = in;
+                        vp_reply(id, "err %s", kind_of_msg(msg));
+                    } else {
+                        struct lyd_node *d = NULL;
+                        lyd_new_implicit_module(&d, m2, 0, NULL);
+                        if (d) { const char *c = lyd_get_value(d); vp_begin(id, "ok"); vp_field_hex(c, strlen(c)); vp_end(); }
+                        else vp_reply(id, "err NoDefault");
+                        lyd_free_all(d);
+                    }
+                }
+                free(sch);
+            } else {
+                vp_reply(id, "err BadArg");
             }
             free(s);
         } else if (!strcmp(op, "routes") && r.ntok == 6) {
@@ -519,7 +966,7 @@ main(void)
                 struct ly_ctx *c2 = NULL; struct lys_module *m2 = NULL; char *sch = NULL; size_t sl = 0; char sd[512];
                 snprintf(sd, sizeof sd, "%s/models", repo);
                 sb_add(&sch, &sl, "module vtdflt { yang-version 1.1; namespace \"urn:vtdflt\"; prefix v;%s leaf x { %s default \"",
-                        t->needs_imports ? IMPORTS : "", t->yangtype);
+                        t->preamble, t->yangtype);
                 if (!yang_dq(s, n, &sch, &sl)) {
                     vp_field_s("N");
                 } else {
@@ -556,7 +1003,7 @@ main(void)
     free(r.line);
     {
         size_t i;
-        for (i = 0; i < ntys; i++) { free(tys[i].desc); free(tys[i].yangtype); }
+        for (i = 0; i < ntys; i++) { free(tys[i].desc); free(tys[i].yangtype); free(tys[i].preamble); free(tys[i].idmods); }
         free(tys);
     }
     ly_ctx_destroy(ctx);
